@@ -13,7 +13,7 @@ import itertools
 
 import pyglove as pg
 from pyglove.core import geno
-from engine.chx import Assume, Violation, reach, untraced
+from engine.chx import Assume, Violation, reach, untraced, concretize
 
 PROPERTY = 'C11'
 LEVEL = 'model_checking'
@@ -82,15 +82,18 @@ def get_spec(name):
 
 
 class Cursor:
-  def __init__(self, vals):
+  def __init__(self, vals, conc=None):
     self.vals = vals
     self.i = 0
     self.used = []
+    self.conc = conc        # candidate values: each consumed decision is made concrete by solver branching (lazily)
 
   def next(self):
     if self.i >= len(self.vals):
       raise Assume()
     v = self.vals[self.i]
+    if self.conc is not None:
+      v = concretize(v, self.conc)
     self.i += 1
     self.used.append(v)
     return v
@@ -164,8 +167,8 @@ def ref_valid(desc, cur, strict=False):
   raise AssertionError(desc)
 
 
-def _decisions(name, vals, strict=False):
-  cur = Cursor(vals)
+def _decisions(name, vals, strict=False, conc=None):
+  cur = Cursor(vals, conc)
   ok = ref_valid(SPECS[name], cur, strict)
   if strict and not ok:
     raise Assume()
@@ -212,21 +215,33 @@ def h_validate(params, d0, d1, d2, d3, d4, d5, d6):
   name = params['spec']
   vals = (d0, d1, d2, d3, d4, d5, d6)
   spec = get_spec(name)
-  valid, used = _decisions(name, vals)
-  _bounded(used)
+  # every consumed decision is a solver variable made concrete by branching over [-2, 5]; the library then runs natively
+  valid, used = _decisions(name, vals, conc=range(*params.get('drange', (-2, 6))))
   for t in range(len(used), NV):
     if vals[t] != 0:
       raise Assume()           # canonical form: unused decision variables are 0
+  vals = tuple(used) + (0,) * (NV - len(used))
+  with untraced():
+    return _validate_body(name, spec, vals, valid, used)
+
+
+def _validate_body(name, spec, vals, valid, used):
   reach('E1.valid' if valid else 'E1.invalid')
-  for how in ('validate', 'bind', 'ctor'):
+  for how in ('validate', 'bind', 'ctor', 'from_numbers'):
     dna = _dna(name, vals)
     try:
       if how == 'validate':
         spec.validate(dna)
       elif how == 'bind':
         dna.use_spec(spec)
-      else:
+      elif how == 'ctor':
         pg.DNA(dna.value, [c.clone(deep=True) for c in dna.children], spec=spec)
+      else:
+        if not valid or name in ('float1', 'custom1'):
+          continue             # from_numbers reads the flat decision list of a well-formed DNA only
+        back = pg.DNA.from_numbers(list(used), spec)
+        if back.to_numbers() != list(used):
+          return Violation('E1:from_numbers:does_not_round_trip', f'spec={name} decisions={used!r} -> {back.to_numbers()!r}')
       accepted = True
     except ValueError:
       accepted = False
@@ -247,12 +262,17 @@ def h_corrupt(params, d0, d1, d2, d3, d4, d5, d6, which):
   name = params['spec']
   vals = (d0, d1, d2, d3, d4, d5, d6)
   spec = get_spec(name)
-  valid, used = _decisions(name, vals, strict=True)
+  valid, used = _decisions(name, vals, strict=True, conc=range(*params.get('drange', (-2, 6))))
   for t in range(len(used), NV):
     if vals[t] != 0:
       raise Assume()
-  if not 0 <= which < len(CORRUPTIONS):
-    raise Assume()
+  vals = tuple(used) + (0,) * (NV - len(used))
+  which = concretize(which, range(len(CORRUPTIONS)))
+  with untraced():
+    return _corrupt_body(name, spec, vals, used, which)
+
+
+def _corrupt_body(name, spec, vals, used, which):
   how = CORRUPTIONS[which]
   dna = _dna(name, vals)
   value, children = dna.value, [c.clone(deep=True) for c in dna.children]
@@ -507,11 +527,15 @@ def shards(tier, seed):
   out = []
   names = QUICK_SPECS if quick else FINITE
   b = 40 if quick else 600
-  for name in names + ['float1', 'custom1']:
-    out.append(dict(name=f'E1:{name}', fn='h_validate', params=dict(spec=name), args=_VALS('d'), budget_s=b, per_path_s=20))
+  # E1 runs natively (cheap): every finite skeleton in both tiers
+  for name in FINITE + ['float1', 'custom1']:
+    drange = (-1, 5) if quick else (-2, 6)
+    out.append(dict(name=f'E1:{name}', fn='h_validate', params=dict(spec=name, drange=drange), args=_VALS('d'), budget_s=b * 3, expect_s=30,
+                    per_path_s=20))
     if name not in ('float1', 'custom1'):
-      out.append(dict(name=f'E1c:{name}', fn='h_corrupt', params=dict(spec=name), args=_VALS('d') + [('which', 'int')],
-                      budget_s=b, per_path_s=20))
+      out.append(dict(name=f'E1c:{name}', fn='h_corrupt', params=dict(spec=name, drange=drange), args=_VALS('d') + [('which', 'int')],
+                      budget_s=b * 3, expect_s=20, per_path_s=20))
+  for name in names + ['float1', 'custom1']:
     if name != 'custom1':       # custom decision points have no random_dna by design (NotImplementedError)
       out.append(dict(name=f'E6r:{name}', fn='h_random', params=dict(spec=name), args=[('rng', 'rng'), ('prev', 'int')],
                       budget_s=b, per_path_s=20))
@@ -537,7 +561,7 @@ META = dict(
     rule='Shard = (obligation, DNASpec skeleton); symbolic: up to 7 decision values per DNA (two DNAs for the '
          'successor lemma), corruption selector, RNG draws, candidate sub-space sizes.',
     bounds=['spec skeletons: ' + ', '.join(sorted(SPECS)),
-            'decision values in [-2,5] where they index candidate lists (native indexing realizes them); '
+            'decision values in [-2,5] ([-1,4] for E1 in the quick tier) where they index candidate lists; '
             'candidates <= 4, choices <= 3, nesting depth <= 3',
             'size lemma: sub-space sizes unbounded non-negative ints, except mode sorted-and-not-distinct (0..3)',
             'RNG: every draw a fresh solver variable in range; random() in {0, 1/4, 2/4, 3/4}'],
